@@ -44,9 +44,9 @@ type slowSender struct {
 	mu       sync.Mutex
 	started  [][]int // tokens of every composite whose Send has begun
 	finished [][]int // tokens of every composite whose Send has returned
-	entered chan struct{}
-	release chan struct{}
-	block   atomic.Bool
+	entered  chan struct{}
+	release  chan struct{}
+	block    atomic.Bool
 }
 
 func (s *slowSender) Send(_ context.Context, _ eventlogger.EventType, payload interface{}) (eventlogger.Status, error) {
